@@ -176,14 +176,14 @@ frames of the set stay below the scheduler depth (`off + markers < 25`), then it
 common `p3`) are appended to the frame due in `off + k`, in order, and no other frame changes. -/
 theorem set_placement (env : Env) (s : Sched) (off : Nat) (set : List Item) (p3 : Nat)
     (hinv : Inv env s) (hop : OpOk env (.scheduleSet off set p3)) (hdepth : off + markers set < 25) :
-    ∃ s' rc, step env s (.scheduleSet off set p3) = .ok (s', ⟨rc, []⟩) ∧
+    ∃ s' rc, step env s (.scheduleSet off set p3) = .ok (s', ⟨rc, []⟩) ∧ Inv env s' ∧
       (rc ≠ -1 →
         rc = (markers set : Int) ∧
         (∀ k f, (framesOf p3 set)[k]? = some f → abs s' (off + k) = abs s (off + k) ++ f) ∧
         (∀ d, d < off ∨ off + markers set < d → abs s' d = abs s d)) := by
   obtain ⟨he, hm, h3, hok⟩ := hop
   obtain ⟨s', rc, hee, hi, _, ha⟩ := scheduleSet_spec env s off set p3 hinv he hm h3 hok
-  refine ⟨s', rc, ?_, ?_⟩
+  refine ⟨s', rc, ?_, hi, ?_⟩
   · simp only [step, bind, Except.bind, hee]; rfl
   · intro hrc
     simp only [Spec.TdmaSched.scheduleSet] at ha
@@ -326,6 +326,46 @@ theorem runs_exactly_at (env : Env) (s : Sched) (off : Nat) (cb : Cb) (p1 p2 p3 
   refine ⟨s1, s', outs, ?_, hrun, hcount⟩
   simp only [step, bind, Except.bind, he, ha2]; rfl
 
+/-- **Sets run frame by frame.**  An item of the k-th frame of a successfully scheduled set
+(`off + k < 25`) runs, under the firmware discipline, exactly once: at the `execute` that follows exactly
+`off + k` advances — k frames after the items of the set's first frame. -/
+theorem set_runs_exactly_at (env : Env) (s : Sched) (off : Nat) (set : List Item) (p3 : Nat)
+    (k : Nat) (f : List (AItem Cb)) (x : AItem Cb) (rest : List Op) (e : Bool)
+    (hinv : Inv env s) (hop : OpOk env (.scheduleSet off set p3)) (hdepth : off + markers set < 25)
+    (hk : (framesOf p3 set)[k]? = some f) (hx1 : f.count x = 1)
+    (hx0 : ∀ k' f', k' ≠ k → (framesOf p3 set)[k']? = some f' → x ∉ f')
+    (hfresh : ∀ d, d < 25 → x ∉ abs s d)
+    (hrest : ∀ op ∈ rest, OpOk env op)
+    (hother : ∀ op ∈ rest, x ∉ Spec.TdmaSched.placed (absOp op))
+    (hnoreset : ∀ op ∈ rest, isResetOp op = false)
+    (hdisc : disciplined e rest = true) (hed : ¬ (e = true ∧ off + k = 0)) :
+    ∃ s1 rc, step env s (.scheduleSet off set p3) = .ok (s1, ⟨rc, []⟩) ∧
+      (rc ≠ -1 → ∃ s' outs, run env s1 rest = .ok (s', outs) ∧
+        ∀ i o, outs[i]? = some o →
+          ranCount x o = if rest[i]? = some .execute ∧ advancesBefore rest i = off + k then 1 else 0) := by
+  obtain ⟨s1, rc, hstep, hi1, hpl⟩ := set_placement env s off set p3 hinv hop hdepth
+  refine ⟨s1, rc, hstep, ?_⟩
+  intro hrc
+  obtain ⟨_, hfr, hun⟩ := hpl hrc
+  have hlen := framesOf_length p3 set
+  have hklt : k < markers set + 1 := by rw [← hlen]; exact lt_of_get? _ _ _ hk
+  have hc1 : (abs s1 (off + k)).count x = 1 := by
+    rw [hfr k f hk, List.count_append, List.count_eq_zero.mpr (hfresh _ (by omega)), hx1]
+  have hc0 : ∀ e', e' < 25 → e' ≠ off + k → (abs s1 e').count x = 0 := by
+    intro e' he' hne
+    by_cases hin : off ≤ e' ∧ e' ≤ off + markers set
+    · have hk' : e' - off < (framesOf p3 set).length := by rw [hlen]; omega
+      have hget : (framesOf p3 set)[e' - off]? = some (framesOf p3 set)[e' - off] := by simp [hk']
+      have := hfr (e' - off) _ hget
+      have e1 : off + (e' - off) = e' := by omega
+      rw [e1] at this
+      rw [this, List.count_append, List.count_eq_zero.mpr (hfresh _ he'),
+        List.count_eq_zero.mpr (hx0 (e' - off) _ (by omega) hget)]
+    · rw [hun e' (by omega)]
+      exact List.count_eq_zero.mpr (hfresh _ he')
+  exact pending_runs_exactly_at env s1 x (off + k) rest e hi1 (by omega) hc1 hc0 hrest hother hnoreset
+    hdisc hed
+
 /-- **Nothing else runs.**  An item that is pending nowhere and is never scheduled is never run: in
 every history of admissible operations (any order, `reset` included) each callback invocation comes
 from an item that was pending or has been scheduled.  Together with `prio_order` (an `execute` runs
@@ -347,5 +387,107 @@ theorem nothing_else_runs (env : Env) (s : Sched) (x : AItem Cb) (ops : List Op)
   have := map_eq_getD (ranCount x) outs _ hcnt i o hi
   rw [Spec.TdmaSched.track_none] at this
   exact List.count_eq_zero.mp this
+
+/-- **Error path** (outside the property's premise "callbacks report success", stated for the record):
+when `tdma_sched_execute()` returns a negative value a callback failed, and the scheduler state is
+exactly what it was — the bucket is not cleared, so its items, including the ones that already ran,
+stay scheduled (see the example below: they run again). -/
+theorem execute_error_keeps_bucket (env : Env) (s s' : Sched) (out : Out)
+    (h : step env s .execute = .ok (s', out)) (hrc : out.rc < 0) : s' = s := by
+  simp only [step, bind, Except.bind] at h
+  cases he : execute env s with
+  | error f => simp [he] at h
+  | ok r =>
+    obtain ⟨s1, rc, ran⟩ := r
+    simp only [he, pure, Except.pure, Except.ok.injEq, Prod.mk.injEq] at h
+    obtain ⟨h1, h2⟩ := h
+    subst h1
+    rw [← h2] at hrc
+    exact execute_error_keeps_state env s s1 rc ran he hrc
+
+/-! ### non-vacuity: the hypotheses are satisfiable by non-trivial values, and the conclusions are what
+the model computes (each history below was also run on the real C code, same observations) -/
+
+/-- every callback reports success -/
+def env0 : Env := fun _ _ _ _ => 0
+/-- callback 10 reports an error -/
+def env1 : Env := fun id _ _ _ => if id = 10 then -1 else 0
+
+def frames (n : Nat) : List Op := (List.replicate n [Op.execute, Op.advance]).flatten
+
+/-- scheduling traffic in the current frame, then 25 disciplined frames -/
+def restEx : List Op :=
+  [.schedule 24 (.fn 4) 0 0 0 0, .execute, .schedule 1 (.fn 5) 1 1 1 7, .advance] ++ frames 25
+
+def xEx : AItem Cb := ⟨.fn 3, 255, 255, 65535, -32768⟩
+
+/-- what a history shows: per operation the return value and the `p1` of the items run, in order -/
+def obs (env : Env) (s : Sched) (ops : List Op) : Option (List (Int × List Nat)) :=
+  (run env s ops).toOption.map (fun r => r.2.map (fun o => (o.rc, o.ran.map (·.p1))))
+
+-- hypotheses of `runs_exactly_at` at the extreme values: ring position 23, offset 24, all-ones parameters
+example : Inv env0 (init 23) ∧ OpOk env0 (.schedule 24 (.fn 3) 255 255 65535 (-32768)) ∧
+    (abs (init 23) 24).length < 8 ∧ disciplined false restEx = true ∧ (∀ op ∈ restEx, OpOk env0 op) ∧
+    (∀ op ∈ restEx, isResetOp op = false) ∧
+    (∀ op ∈ restEx, xEx ∉ Spec.TdmaSched.placed (absOp op)) := by decide
+example : ∀ d, d < 25 → xEx ∉ abs (init 23) d := by decide +kernel
+-- ... and its conclusion evaluated: 52 operations, the item runs at the execute after 24 advances only
+example : (run env0 (init 23) (.schedule 24 (.fn 3) 255 255 65535 (-32768) :: restEx)).toOption.map
+    (fun r => r.2.map (ranCount xEx)) =
+    some ([0, 0, 0, 0, 0] ++ (List.replicate 23 [0, 0]).flatten ++ [1, 0, 0, 0]) := by decide +kernel
+
+-- a well-formed state that is not `init`: a full bucket, negative and equal priorities, stale slots
+def sFull : Option Sched :=
+  (run env0 (init 24) ((List.range 9).map (fun k => Op.schedule 1 (.fn k) k 0 0 (if k % 2 = 0 then -3 else 3)))).toOption.map (·.1)
+example : sFull.map (fun s => decide (Inv env0 s)) = some true := by decide +kernel
+-- overflow: the 9th item is refused (-1), the 8 others run one advance later, negative priorities first
+example : obs env0 (init 24) ((List.range 9).map (fun k => Op.schedule 1 (.fn k) k 0 0 (if k % 2 = 0 then -3 else 3))
+      ++ [.advance, .execute, .execute]) =
+    some ((List.replicate 8 (0, [])) ++ [(-1, []), (0, []), (8, [0, 2, 4, 6, 1, 5, 3, 7]), (0, [])]) := by
+  decide +kernel
+
+-- the exchange sort is not stable: equal priorities 2 (p1 = 1), 2 (p1 = 2) behind a 1 (p1 = 3) swap
+example : obs env0 (init 0) [.schedule 0 (.fn 1) 1 0 0 2, .schedule 0 (.fn 2) 2 0 0 2, .schedule 0 (.fn 3) 3 0 0 1,
+    .execute] = some [(0, []), (0, []), (0, []), (3, [3, 2, 1])] := by decide +kernel
+
+-- an item set: 2 frames, elements after SCHED_END_SET() ignored, common p3
+def setEx : List Item :=
+  [⟨.fn 1, 1, 0, 0, 5, 3⟩, ⟨.fn 2, 2, 0, 0, -1, 0⟩, ⟨.null, 0, 0, 0, 0, 0⟩, ⟨.fn 3, 3, 0, 0, 0, 0⟩,
+   ⟨.endSet, 0, 0, 0, 0, 0⟩, ⟨.fn 4, 4, 0, 0, 0, 0⟩]
+example : OpOk env0 (.scheduleSet 23 setEx 77) ∧ 23 + markers setEx < 25 ∧
+    framesOf 77 setEx = [[⟨.fn 1, 1, 0, 77, 5⟩, ⟨.fn 2, 2, 0, 77, -1⟩], [⟨.fn 3, 3, 0, 77, 0⟩]] := by decide
+example : obs env0 (init 7) ([.scheduleSet 23 setEx 77] ++ frames 25) =
+    some ([(1, [])] ++ (List.replicate 23 [(0, []), (0, [])]).flatten ++
+      [(2, [2, 1]), (0, []), (1, [3]), (0, [])]) := by decide +kernel
+
+/-! ### corner cases of the real code, outside the premises of the property (confirmed on the C code) -/
+
+-- an item scheduled for the current frame AFTER that frame was executed waits a full turn of the ring
+example : obs env0 (init 5) ([.execute, .schedule 0 (.fn 1) 1 0 0 0, .advance] ++ frames 24 ++ [.execute]) =
+    some ([(0, []), (0, []), (0, [])] ++ (List.replicate 24 [(0, []), (0, [])]).flatten ++ [(1, [1])]) := by
+  decide +kernel
+-- an offset of 25 is the current frame
+example : obs env0 (init 5) [.schedule 25 (.fn 1) 1 0 0 0, .execute] = some [(0, []), (1, [1])] := by
+  decide +kernel
+-- a set that overflows in its second item: -1, but its first item stays scheduled
+example : obs env0 (init 5) ((List.range 7).map (fun k => Op.schedule 3 (.fn 1) k 0 0 0) ++
+    [.scheduleSet 3 [⟨.fn 2, 100, 0, 0, 0, 0⟩, ⟨.fn 3, 101, 0, 0, 0, 0⟩, ⟨.endSet, 0, 0, 0, 0, 0⟩] 9,
+     .advance, .advance, .advance, .execute]) =
+    some ((List.replicate 7 (0, [])) ++ [(-1, []), (0, []), (0, []), (0, []), (8, [0, 1, 2, 3, 4, 5, 6, 100])]) := by
+  decide +kernel
+-- tdma_sched_reset() keeps the bucket of the current frame
+example : obs env0 (init 5) [.schedule 0 (.fn 1) 1 0 0 0, .schedule 1 (.fn 2) 2 0 0 0, .reset, .execute,
+    .advance, .execute] = some [(0, []), (0, []), (0, []), (1, [1]), (0, []), (0, [])] := by decide +kernel
+-- a failing callback: execute returns its rc, the bucket stays, the items run again
+example : obs env1 (init 5) [.schedule 0 (.fn 1) 1 0 0 0, .schedule 0 (.fn 10) 2 0 0 1, .schedule 0 (.fn 3) 3 0 0 2,
+    .execute, .execute] = some [(0, []), (0, []), (0, []), (-1, [1, 2]), (-1, [1, 2])] := by decide +kernel
+-- a set whose frames reach beyond the depth wraps into the current frame
+example : obs env0 (init 5) [.scheduleSet 24 [⟨.fn 1, 1, 0, 0, 0, 0⟩, ⟨.null, 0, 0, 0, 0, 0⟩, ⟨.fn 2, 2, 0, 0, 0, 0⟩,
+    ⟨.endSet, 0, 0, 0, 0, 0⟩] 9, .execute] = some [(1, []), (1, [2])] := by decide +kernel
+-- tdma_schedule() does not write .flags: the new item inherits the flags of the slot's previous item
+example : ((do
+    let (s, _) ← run env0 (init 5) [.scheduleSet 0 [⟨.fn 1, 1, 0, 0, 0, 3⟩, ⟨.endSet, 0, 0, 0, 0, 0⟩] 0, .execute,
+      .schedule 0 (.fn 2) 2 0 0 0]
+    flagScan s) : Except Fault Nat).toOption = some 3 := by decide +kernel
 
 end OsmoVerif.Props.C08
